@@ -106,6 +106,15 @@ def finish(report, level="model_checking"):
             violations.append(finding)
     for ident, (entry, n) in sorted(known_hits.items()):
         print("KNOWN-FINDING: property=%s %s (%s; %d occurrence(s) this run)" % (report.prop, entry["what"], ident, n))
+    if violations:
+        sigs = {}
+        for f in violations:
+            b = f.get("binding", {})
+            key = (f.get("clause"), f.get("op"), b.get("np"), b.get("lp"), tuple(f.get("label", {}).get("tags", []))
+                   if isinstance(f.get("label"), dict) else ())
+            sigs[key] = sigs.get(key, 0) + 1
+        for key, n in sorted(sigs.items(), key=str):
+            print("  violation kind x%d: %s" % (n, key))
     seen = set()
     for finding in violations[:10]:
         path = write_replay(report.prop, finding)
